@@ -2,7 +2,6 @@ package c16
 
 import (
 	"fmt"
-	"sort"
 	"strings"
 )
 
@@ -11,9 +10,10 @@ import (
 // most maxNodes nodes, expression depth <= maxDepth and at most maxStmts top-level statements is
 // generated, smallest first. Nothing is sampled.
 //
-//   prog := "local x, t = 0, {}"  stmt{0..maxStmts}
-//   stmt := x = E | t[K] = E | if E then stmt end | while W do stmt end | for i = 1, 3 do stmt end
-//         | error(E) | table.insert(t, E) | setmetatable(t, E) | return E | break (inside loops only)
+//   prog := "local x, t = 0, {}"  stmt{0..maxStmts}  "return t"   (the trailer is omitted after a top-level return)
+//   stmt := x = E | t[K] = E | error(E) | return E
+//         | if E then body end | while W do body end | for i = 1, 3 do body end
+//   body := x = E | t[#t + 1] = E | return E | break (inside loops only)
 //   E    := A | unary(E) | binary(E, E)
 //   A    := nil | true | 1 | "a" | x | t | obj.data | ...        (obj is the call-site input object)
 //
@@ -32,6 +32,7 @@ const (
 	fError
 	fLoad
 	fReturn
+	fTopReturn // the program ends with its own top-level return
 )
 
 type frag struct {
@@ -78,26 +79,17 @@ func quickGrammar() grammarCfg {
 			{`{%s, %s}`, 0}, {`{%s, a=%s}`, 0}, {`string.find(%s, %s)`, fPattern},
 			{`setmetatable(%s, %s)`, fMeta}, {`pcall(%s, %s)`, fPcall}, {`%s / %s`, 0},
 		},
-		maxNodes: 6, maxDepth: 3, maxStmts: 3, whileBodyNodes: 2, whileMaxTotal: 5,
+		maxNodes: 5, maxDepth: 3, maxStmts: 3, whileBodyNodes: 2, whileMaxTotal: 5,
 	}
 }
 
 func thoroughGrammar() grammarCfg {
 	g := quickGrammar()
-	g.atoms = append(g.atoms, `obj`, `0.5`)
-	g.keys = append(g.keys, `true`)
+	g.atoms = append(g.atoms, `obj`)
 	g.whileCnd = append(g.whileCnd, `not x`, `x == 0`)
-	g.unary = append(g.unary,
-		opDef{`type(%s)`, 0}, opDef{`tonumber(%s)`, 0}, opDef{`unpack(%s)`, 0}, opDef{`next(%s)`, 0},
-		opDef{`table.concat(%s)`, 0}, opDef{`getmetatable(%s)`, fMeta}, opDef{`string.rep("ab", %s)`, 0},
-		opDef{`string.format("%%5.2f", %s)`, fPattern}, opDef{`rawget(t, %s)`, 0},
-	)
-	g.binary = append(g.binary,
-		opDef{`%s and %s`, 0}, opDef{`{a=%s, b=%s}`, 0}, opDef{`string.format(%s, %s)`, fPattern},
-		opDef{`string.gsub(%s, %s, "")`, fPattern}, opDef{`rawset(t, %s, %s)`, 0}, opDef{`%s %% %s`, 0},
-		opDef{`%s ^ %s`, 0}, opDef{`string.match(%s, %s)`, fPattern}, opDef{`xpcall(%s, %s)`, fPcall},
-	)
-	g.maxNodes, g.maxStmts, g.whileBodyNodes, g.whileMaxTotal = 6, 4, 3, 6
+	g.unary = append(g.unary, opDef{`unpack(%s)`, 0})
+	g.binary = append(g.binary, opDef{`string.gsub(%s, %s, "")`, fPattern})
+	g.maxNodes, g.maxStmts, g.whileBodyNodes, g.whileMaxTotal = 6, 4, 3, 5
 	return g
 }
 
@@ -105,11 +97,12 @@ const prelude = "local x, t = 0, {}\n"
 
 // exprs[n] = all expressions with exactly n nodes (depth <= maxDepth), in generation order.
 func (g grammarCfg) exprTable() [][]frag {
-	tab := make([][]frag, g.maxNodes+1)
+	// a statement costs one node itself, so expressions have at most maxNodes-1 nodes
+	tab := make([][]frag, g.maxNodes)
 	for _, a := range g.atoms {
 		tab[1] = append(tab[1], frag{s: a, nodes: 1, depth: 1})
 	}
-	for n := 2; n <= g.maxNodes; n++ {
+	for n := 2; n < g.maxNodes; n++ {
 		for _, u := range g.unary {
 			for _, e := range tab[n-1] {
 				if e.depth+1 > g.maxDepth {
@@ -156,78 +149,66 @@ type stmtFrag struct {
 	final bool
 }
 
-// stmts[n] = all statements with exactly n nodes. inLoop allows `break`.
-func (g grammarCfg) stmtTable(ex [][]frag, limit int, inLoop bool, allowWhile bool) [][]stmtFrag {
-	tab := make([][]stmtFrag, limit+1)
-	for n := 1; n <= limit; n++ {
-		if n == 1 && inLoop {
-			tab[1] = append(tab[1], stmtFrag{frag{s: "break", nodes: 1}, true})
+// eachBody: simple statements usable as the single-statement body of if / for / while, exactly n nodes.
+func (g grammarCfg) eachBody(ex [][]frag, n int, inLoop bool, f func(stmtFrag)) {
+	if n == 1 && inLoop {
+		f(stmtFrag{frag{s: "break", nodes: 1}, true})
+	}
+	if n >= 2 && n-1 < len(ex) {
+		for _, e := range ex[n-1] {
+			f(stmtFrag{frag{s: "x = " + e.s, nodes: n, f: e.f}, false})
 		}
-		if n >= 2 {
-			for _, e := range ex[n-1] {
-				tab[n] = append(tab[n], stmtFrag{frag{s: "x = " + e.s, nodes: n, f: e.f}, false})
-			}
-			for _, e := range ex[n-1] {
-				tab[n] = append(tab[n], stmtFrag{frag{s: "return " + e.s, nodes: n, f: e.f | fReturn}, true})
-			}
-			for _, e := range ex[n-1] {
-				tab[n] = append(tab[n], stmtFrag{frag{s: "error(" + e.s + ")", nodes: n, f: e.f | fError}, false})
-				tab[n] = append(tab[n], stmtFrag{frag{s: "table.insert(t, " + e.s + ")", nodes: n, f: e.f}, false})
-				tab[n] = append(tab[n], stmtFrag{frag{s: "setmetatable(t, " + e.s + ")", nodes: n, f: e.f | fMeta}, false})
-			}
-			for _, k := range g.keys {
-				for _, e := range ex[n-1] {
-					tab[n] = append(tab[n], stmtFrag{frag{s: "t[" + k + "] = " + e.s, nodes: n, f: e.f}, false})
-				}
-			}
+		for _, e := range ex[n-1] {
+			f(stmtFrag{frag{s: "return " + e.s, nodes: n, f: e.f | fReturn}, true})
+		}
+		for _, e := range ex[n-1] {
+			f(stmtFrag{frag{s: "t[#t + 1] = " + e.s, nodes: n, f: e.f}, false})
 		}
 	}
-	// compound statements (bodies are single statements; built bottom-up by size)
-	for n := 2; n <= limit; n++ {
-		// for i = 1, 3 do S end : 1 + |S|
-		body := g.bodyTable(ex, n-1, true)
-		for _, s := range body[n-1] {
-			tab[n] = append(tab[n], stmtFrag{frag{s: "for i = 1, 3 do " + s.s + " end", nodes: n, f: s.f | fFor}, false})
-		}
-		// if E then S end : 1 + |E| + |S|
-		for ne := 1; ne <= n-2; ne++ {
-			ns := n - 1 - ne
-			bodyIf := g.bodyTable(ex, ns, inLoop)
-			for _, e := range ex[ne] {
-				for _, s := range bodyIf[ns] {
-					tab[n] = append(tab[n], stmtFrag{frag{s: "if " + e.s + " then " + s.s + " end", nodes: n, f: e.f | s.f}, false})
-				}
-			}
-		}
-		// while W do S end : 1 + 1 + |S|, |S| <= whileBodyNodes
-		if allowWhile && n >= 3 && n-2 <= g.whileBodyNodes {
-			bodyW := g.bodyTable(ex, n-2, true)
-			for _, w := range g.whileCnd {
-				for _, s := range bodyW[n-2] {
-					tab[n] = append(tab[n], stmtFrag{frag{s: "while " + w + " do " + s.s + " end", nodes: n, f: s.f | fWhile}, false})
-				}
-			}
-		}
-	}
-	return tab
 }
 
-// bodyTable: simple (non-compound) statements usable as the body of if/for/while.
-func (g grammarCfg) bodyTable(ex [][]frag, limit int, inLoop bool) [][]stmtFrag {
-	tab := make([][]stmtFrag, limit+1)
-	for n := 1; n <= limit; n++ {
-		if n == 1 && inLoop {
-			tab[1] = append(tab[1], stmtFrag{frag{s: "break", nodes: 1}, true})
+// eachStmt: every top-level statement with exactly n nodes.
+func (g grammarCfg) eachStmt(ex [][]frag, n int, f func(stmtFrag)) {
+	if n < 2 {
+		return
+	}
+	if n-1 < len(ex) {
+		for _, e := range ex[n-1] {
+			f(stmtFrag{frag{s: "x = " + e.s, nodes: n, f: e.f}, false})
 		}
-		if n >= 2 {
+		for _, e := range ex[n-1] {
+			f(stmtFrag{frag{s: "return " + e.s, nodes: n, f: e.f | fReturn}, true})
+		}
+		for _, e := range ex[n-1] {
+			f(stmtFrag{frag{s: "error(" + e.s + ")", nodes: n, f: e.f | fError}, false})
+		}
+		for _, k := range g.keys {
 			for _, e := range ex[n-1] {
-				tab[n] = append(tab[n], stmtFrag{frag{s: "x = " + e.s, nodes: n, f: e.f}, false})
-				tab[n] = append(tab[n], stmtFrag{frag{s: "return " + e.s, nodes: n, f: e.f | fReturn}, true})
-				tab[n] = append(tab[n], stmtFrag{frag{s: "table.insert(t, " + e.s + ")", nodes: n, f: e.f}, false})
+				f(stmtFrag{frag{s: "t[" + k + "] = " + e.s, nodes: n, f: e.f}, false})
 			}
 		}
 	}
-	return tab
+	// for i = 1, 3 do S end : 1 + |S|
+	g.eachBody(ex, n-1, true, func(s stmtFrag) {
+		f(stmtFrag{frag{s: "for i = 1, 3 do " + s.s + " end", nodes: n, f: s.f | fFor}, false})
+	})
+	// if E then S end : 1 + |E| + |S|
+	for ne := 1; ne <= n-3; ne++ {
+		ns := n - 1 - ne
+		for _, e := range ex[ne] {
+			g.eachBody(ex, ns, false, func(s stmtFrag) {
+				f(stmtFrag{frag{s: "if " + e.s + " then " + s.s + " end", nodes: n, f: e.f | s.f}, false})
+			})
+		}
+	}
+	// while W do S end : 1 + 1 + |S|, |S| <= whileBodyNodes
+	if n >= 3 && n-2 <= g.whileBodyNodes {
+		for _, w := range g.whileCnd {
+			g.eachBody(ex, n-2, true, func(s stmtFrag) {
+				f(stmtFrag{frag{s: "while " + w + " do " + s.s + " end", nodes: n, f: s.f | fWhile}, false})
+			})
+		}
+	}
 }
 
 type program struct {
@@ -236,48 +217,47 @@ type program struct {
 	f     feat
 }
 
-// programs enumerates every program of the grammar, ordered by node count (smallest first).
-func (g grammarCfg) programs() []program {
+// forEachProgram enumerates every program of the grammar, ordered by node count (smallest first),
+// without materialising the set.
+func (g grammarCfg) forEachProgram(emit func(program)) {
 	ex := g.exprTable()
-	st := g.stmtTable(ex, g.maxNodes, false, true)
-	// seqs[k][n] = sequences of k statements with n nodes in total
-	type seq struct {
-		s     string
-		nodes int
-		f     feat
-		final bool
-	}
-	var all []program
-	all = append(all, program{src: prelude, nodes: 0})
-	prev := map[int][]seq{0: {{s: "", nodes: 0}}}
-	for k := 1; k <= g.maxStmts; k++ {
-		cur := map[int][]seq{}
-		for pn := 0; pn <= g.maxNodes; pn++ {
-			for _, p := range prev[pn] {
-				if p.final {
-					continue
+	emit(program{src: prelude, nodes: 0})
+	emit(program{src: prelude + "return t\n", nodes: 0})
+	for total := 2; total <= g.maxNodes; total++ {
+		var rec func(prefix string, left, stmtsLeft int, ff feat)
+		rec = func(prefix string, left, stmtsLeft int, ff feat) {
+			if left == 0 {
+				if ff&fTopReturn == 0 {
+					prefix += "return t\n"
 				}
-				for sn := 1; pn+sn <= g.maxNodes; sn++ {
-					for _, s := range st[sn] {
-						tot := pn + sn
-						ff := p.f | s.f
-						if ff&fWhile != 0 && tot > g.whileMaxTotal {
-							continue
-						}
-						cur[tot] = append(cur[tot], seq{s: p.s + s.s + "\n", nodes: tot, f: ff, final: s.final})
+				emit(program{src: prelude + prefix, nodes: total, f: ff})
+				return
+			}
+			if stmtsLeft == 0 {
+				return
+			}
+			for sn := 2; sn <= left; sn++ {
+				rest := left - sn
+				if rest == 1 || (stmtsLeft == 1 && rest != 0) {
+					continue // no top-level statement has a single node
+				}
+				g.eachStmt(ex, sn, func(s stmtFrag) {
+					if s.final && rest != 0 {
+						return
 					}
-				}
+					nf := ff | s.f
+					if s.final {
+						nf |= fTopReturn
+					}
+					if nf&fWhile != 0 && total > g.whileMaxTotal {
+						return
+					}
+					rec(prefix+s.s+"\n", rest, stmtsLeft-1, nf)
+				})
 			}
 		}
-		for n := 1; n <= g.maxNodes; n++ {
-			for _, q := range cur[n] {
-				all = append(all, program{src: prelude + q.s, nodes: n, f: q.f})
-			}
-		}
-		prev = cur
+		rec("", total, g.maxStmts, 0)
 	}
-	sort.SliceStable(all, func(i, j int) bool { return all[i].nodes < all[j].nodes })
-	return all
 }
 
 // grammarClass is the structural class used in signatures of grammar programs: loops dominate,
